@@ -108,6 +108,10 @@ def extract(repo, scope):
     key = '%s-%s-%s' % (scope, th, driver_src_hash())
     fdir = os.path.join(CACHE, 'facts', key)
     if os.path.exists(os.path.join(fdir, 'COMPLETE')):
+        try:
+            os.utime(fdir, None)        # least-recently-USED pruning: a tree that is being checked now stays
+        except OSError:
+            pass
         return fdir, {'cached': True, 'tree_hash': th, 'files_hashed': nfiles}
     os.makedirs(os.path.join(CACHE, 'facts'), exist_ok=True)
     with open(os.path.join(CACHE, 'lock.extract'), 'w') as lk:
